@@ -7,6 +7,8 @@ def run(ctx: Ctx) -> None:
     t10_flow.run_flow(ctx)
     t10_flow.run_normalize(ctx)
     t10_flow.run_default_axes(ctx)
+    t10_flow.run_single_field(ctx)
+    ctx.floor("T10x.single-field", 8)
     ctx.floor("T10x.default-axes", 4)
     # converting vectors between two grids in one step (grid_transform_vectors with axes != to_axes) is the grid's own two-grid map
     from ..tables import t1_grid
@@ -18,6 +20,12 @@ def run(ctx: Ctx) -> None:
     with ctx.only("T18.flow-api"):
         t18_io.run_entry_points(ctx)
     ctx.floor("T18.flow-api", 8)
+    # resampling a field on another grid reads it at the target grid's sample positions, whatever the two grids' conventions are
+    # (FlowFields.sample runs through ImageBatch.sample; its positions are decided by T13.sample, shared with C04)
+    from ..tables import t13_lockstep
+    with ctx.only("T13.sample"):
+        t13_lockstep.run_lockstep(ctx)
+    ctx.floor("T13.sample", 6)
     ctx.floor("T10x.axes", 8)
     ctx.floor("T10x.exp", 8)
     ctx.floor("T10x.warp", 8)
